@@ -920,6 +920,24 @@ Section C03.
     intros A B C. unfold detach_compact. rewrite split3 by assumption. reflexivity.
   Qed.
 
+  (* segment-wise, for EVERY token that splits into three segments: the result splits
+     into the same header segment, the empty segment and the same signature segment *)
+  Theorem detach_compact_split tok h p s :
+    split_dot tok = [h; p; s] ->
+    exists d, detach_compact tok = Ok d /\ split_dot d = [h; []; s] /\ d = h ++ 46 :: 46 :: s.
+  Proof.
+    intro S. unfold detach_compact. rewrite S. destruct (split3_inv _ _ _ _ S) as (_ & A & _ & C).
+    eexists. split; [reflexivity|]. cbn [join_dot]. split; [|reflexivity].
+    change (h ++ 46 :: [] ++ 46 :: s) with (h ++ 46 :: ([] : list N) ++ 46 :: s).
+    apply split3; auto.
+  Qed.
+
+  (* a token with fewer than two dots has no payload segment to detach *)
+  Theorem detach_compact_needs_two tok : (length (split_dot tok) < 2)%nat -> detach_compact tok = Err EIndex.
+  Proof.
+    unfold detach_compact. destruct (split_dot tok) as [|a [|b r]]; cbn; intro H; try reflexivity; lia.
+  Qed.
+
   Theorem detach_json_untouched v :
     match v, detach_json v with
     | JFlat _ sg, JFlat p' sg' => p' = None /\ sg' = sg
